@@ -217,7 +217,7 @@ def compare_items(r, label, direction, m32, m64, x, ctx, det, me=None):
                     sens = max(sens, abs(la - lb) / den)
             except Exception:
                 pass
-        allowed_l = simple_l + 64 * E32 * parts_abs + 32 * E32 * squash_amp + (1024 if direction == "inverse" else 256) * E32 * sens * (1 + nx) + \
+        allowed_l = simple_l + 64 * E32 * parts_abs + 32 * E32 * squash_amp + 1024 * E32 * sens * (1 + nx) + \
             (8 * E32 * float(np.exp(min(abs(float(l64[i])), 30.0))) if me is not None and "spline_linear" in me["tags"] else 0.0)
         r.worst("out_err/allowed", float((oe / allowed_o).max()))
         r.worst("lad_err/allowed", le / allowed_l)
